@@ -175,3 +175,13 @@ package loader
 //@   loop 1 invariant forall n string :: n in p.Processes <==> old(n in p.Processes)
 //@   loop 1 invariant forall n string :: seen(n) && n in p.Processes ==> renderedCfg(p.Processes[n].ReplicaName)
 //@   loop 1 invariant monotone("renderedCfg")
+
+// C16: every replica gets probe and vars objects of its own (they are rendered per replica): the clones are fresh
+// objects whenever there is something to clone - also for an empty vars map.
+//@ func cloneVars
+//@   ensures nil-stays-nil: vars == nil ==> result == nil
+//@   ensures own-copy: vars != nil ==> result != nil && fresh(result)
+//@   loop 1 invariant clone != nil && fresh(clone)
+//@ func cloneProbe
+//@   ensures nil-stays-nil: probe == nil ==> result == nil
+//@   ensures own-copy: probe != nil ==> result != nil && fresh(result) && (probe.Exec != nil ==> result.Exec != nil && fresh(result.Exec)) && (probe.HttpGet != nil ==> result.HttpGet != nil && fresh(result.HttpGet))
